@@ -14,6 +14,8 @@ PROPS = {
         models=[
             dict(name="ccontainer", pkg="./ccontainerx", test="TestCContainer", coq_mod="CContainer.Spec", run_check="run_check_ccontainer",
                  corpus="ccontainer", quick_n=2000, thorough_n=200000, nontrivial=_nt, tags="",
+                 # the same correspondence in the free-running regime, in every check (harness/ccontainerx/free_test.go)
+                 free_search=dict(test="TestCContainerFree", props={"C15": [5]}), free_always=True,
                  rule="implementation-driven random gate-level histories on a CContainer[uint64] (config: one of 7 equality functions incl. none / "
                       "mod 2 / always equal / asymmetric a<=b / div 4 / the NON-REFLEXIVE never-equal and a<b, initial value) or on a "
                       "ccontainer.NewCContainerVT container over a pointer type with an EqualVT method (nil = empty, every value freshly allocated: "
